@@ -521,11 +521,16 @@ Section Fold.
           if Z.eqb new_axis 0 then PRepl st [mk "Concat" xs [y] [("axis", AInt axis)]]
           else if Z.eqb new_axis 1 then
             let a := fresh (s_next st) in
-            let names := map (fun x => (x ++ "_unsqueeze")) (present xs) in
+            let name_of (ix : nat * vname) : vname :=
+              match unsqueeze_name_scheme with
+              | O => String.append (snd ix) "_unsqueeze"
+              | _ => String.append y (String.append "_" (String.append (nat_to_string (fst ix)) "_unsqueeze"))
+              end in
+            let ixs := combine (seq 0 (List.length (present xs))) (present xs) in
             PRepl (set_next st (S (s_next st)))
                   (mk "Constant" [] [a] [("value_int", AInt axis)]
-                   :: map (fun x => mk "Unsqueeze" [Some x; Some a] [(x ++ "_unsqueeze")] []) (present xs)
-                   ++ [mk "Concat" (map Some names) [y] [("axis", AInt axis)]])
+                   :: map (fun ix => mk "Unsqueeze" [Some (snd ix); Some a] [name_of ix] []) ixs
+                   ++ [mk "Concat" (map (fun ix => Some (name_of ix)) ixs) [y] [("axis", AInt axis)]])
           else PNone st
         | _, _, _ => PNone st
         end
@@ -564,7 +569,8 @@ Section Fold.
           if Z.leb k 0 then PUnmodelled else
           let outs := names (Z.to_nat k) in
           finish st [mk "Split" [Some x; Some sp] outs [("axis", AInt axis)]] outs
-        | None, Some _ => PRaise                       (* split_value.ndim with split_value = None: AttributeError *)
+        | None, Some _ => if split_value_none_guard then PNone st
+                          else PRaise                  (* split_value.ndim with split_value = None: AttributeError *)
         | Some v, _ =>
           match v_dims v with
           | [k] =>
